@@ -327,6 +327,8 @@ main(int argc, char **argv)
 	}
       }
 
+      if((int64_t) strlen(msaA[ai]->rf) != msaA[ai]->alen) esl_fatal("Error, the #=GC RF annotation of alignment %d of file %d (%s) does not have the length of the alignment\n", nali_per_file[fi], (fi+1), alifile_list[fi]);
+
       /* either store consensus (non-gap RF) length (if first aln), or verify it is what we expect */
       cur_clen = 0;
       for(apos = 0; apos < (int) msaA[ai]->alen; apos++) { 
